@@ -1,8 +1,43 @@
-import Pun.Model.Proto
+import Pun.Model.Hedge
+import Pun.Gen.HedgeGen
 namespace Pun.Drv.C20
-open Pun
+open Pun Pun.Hedge
+
+def parseDigits (s : String) : Option (List Nat) :=
+  if s == "-" then some [] else
+  s.toList.mapM (fun c => if c.isDigit then some (c.toNat - '0'.toNat) else none)
+
+/-- numeral on the wire: `<neg 0|1> <int digits|-> <frac digits|-> <hasDot 0|1> <exp|n>` -/
+def parseNumeral : List String → Option (Numeral × List String)
+  | n :: i :: f :: d :: e :: rest => do
+    let neg ← if n == "1" then some true else if n == "0" then some false else none
+    let dot ← if d == "1" then some true else if d == "0" then some false else none
+    let ex ← if e == "n" then some none else (parseInt e).map some
+    some (⟨neg, ← parseDigits i, ← parseDigits f, dot, ex⟩, rest)
+  | _ => none
+
+def showEB : EB → String
+  | .ninf => "-inf" | .pinf => "inf" | .fin r => showRat r
 
 def handle : List String → String
+  | "sg" :: rest =>
+    match parseNumeral rest with
+    | some (ν, []) => let r := sgnumber ν; s!"ok {showRat r.1} {showRat r.2}"
+    | _ => "bad-op"
+  | "hedge" :: kw :: rest =>
+    match parseNumeral rest with
+    | some (ν, [sq]) =>
+      match parseRat sq with
+      | some sq =>
+        match hedge Pun.Gen.hedgeTable (kw.replace "_" " ") ν sq with
+        | some iv => s!"ok {showEB iv.lo} {showEB iv.hi}"
+        | none => "none"
+      | none => "bad-op"
+    | _ => "bad-op"
+  | "val" :: rest =>
+    match parseNumeral rest with
+    | some (ν, []) => s!"ok {showRat ν.val} {decipherD ν}"
+    | _ => "bad-op"
   | _ => "bad-op"
 
 end Pun.Drv.C20
